@@ -12,7 +12,8 @@ Inductive eff : Type -> Type :=
 | Simple {X} (f : st -> X * st) : eff X                          (* one atomic step on the process state *)
 | Call (f : fid) (a : pargs) (k : pkwargs) : eff (value + exn)    (* call the *decorated* callable named f *)
 | CallBody (f : fid) (a : pargs) (k : pkwargs) : eff (value + exn)(* call the original function (self.func) *)
-| GenResume (h : nat) (r : resume) : eff gen_res.                 (* next / send / throw / close on a live generator *)
+| GenResume (h : nat) (r : resume) : eff gen_res                  (* next / send / throw / close on a live generator *)
+| Spawn (f : fid) (a : pargs) (k : pkwargs) : eff value.          (* create a coroutine object for f(...) without starting it *)                 (* next / send / throw / close on a live generator *)
 
 Inductive prog (A : Type) : Type :=
 | Ret (a : A)
@@ -87,20 +88,22 @@ Definition raise_new {A} (e : exn) : prog A := x <- fresh_exn e ;; Raise x.
 Definition log (ev : event) : prog unit := modify (emit ev).
 
 (* ---------- statements ---------- *)
-Inductive ctrl := CNormal | CReturn (v : value).
+Inductive ctrl (R : Type) := CNormal | CReturn (v : R).
+Arguments CNormal {R}.
 Definition out_of_fuel : exn := mk_exn (mk_cls "<out-of-loop-fuel>" []) [].
 Definition is_out_of_fuel (e : exn) := cls_is (e_cls e) "<out-of-loop-fuel>".
 
 Section Stmt.
   Variable env : Type.
-  Definition stmt := env -> prog (ctrl * env).
+  Variable R : Type.     (* the type of `return` values of the function the statement belongs to *)
+  Definition stmt := env -> prog (ctrl R * env).
   Definition s_skip : stmt := fun e => Ret (CNormal, e).
   Definition s_seq (a b : stmt) : stmt := fun e =>
     r <- a e ;; match fst r with CNormal => b (snd r) | CReturn v => Ret (CReturn v, snd r) end.
   Definition s_do (p : env -> prog unit) : stmt := fun e => p e ;;; Ret (CNormal, e).
   Definition s_assign {X} (set : X -> env -> env) (p : env -> prog X) : stmt := fun e =>
     x <- p e ;; Ret (CNormal, set x e).
-  Definition s_return (p : env -> prog value) : stmt := fun e => v <- p e ;; Ret (CReturn v, e).
+  Definition s_return (p : env -> prog R) : stmt := fun e => v <- p e ;; Ret (CReturn v, e).
   Definition s_raise (p : env -> prog exn) : stmt := fun e => x <- p e ;; Raise x.
   Definition s_raise_exn (x : exn) : stmt := fun _ => Raise x.
   Definition s_if (c : env -> prog bool) (a b : stmt) : stmt := fun e => t <- c e ;; if t then a e else b e.
@@ -127,7 +130,7 @@ Section Stmt.
     | inr ex => r2 <- in_handler ex (f e) ;; match fst r2 with CNormal => Raise ex | CReturn v => Ret (CReturn v, snd r2) end
     end.
   Definition handler := ((exn -> bool) * option (exn -> env -> env) * (exn -> stmt))%type.
-  Fixpoint pick (hs : list handler) (ex : exn) (e : env) : option (prog (ctrl * env)) :=
+  Fixpoint pick (hs : list handler) (ex : exn) (e : env) : option (prog (ctrl R * env)) :=
     match hs with
     | [] => None
     | (m, set, body) :: rest =>
@@ -149,6 +152,13 @@ Section Stmt.
                           | Close => Raise (mk_exn GeneratorExitC [])
                           end).
 End Stmt.
-Arguments s_skip {env}. Arguments s_raise_exn {env}.
+Arguments s_skip {env R}. Arguments s_raise_exn {env R}.
+Arguments s_seq {env R}. Arguments s_do {env R}. Arguments s_assign {env R X}. Arguments s_return {env R}.
+Arguments s_raise {env R}. Arguments s_if {env R}. Arguments s_for_list {env R X}. Arguments s_for {env R X}.
+Arguments s_while_true {env R}. Arguments s_finally {env R}. Arguments s_try {env R}. Arguments pick {env R}.
+Arguments s_yield {env R}. Arguments s_yield_assign {env R}.
 
-Definition ret_of {E} (r : ctrl * E) : value := match fst r with CReturn v => v | CNormal => VNone end.
+Definition ret_of {E} (r : ctrl value * E) : value := match fst r with CReturn v => v | CNormal => VNone end.
+Definition ret_or {R E} (d : R) (r : ctrl R * E) : R := match fst r with CReturn v => v | CNormal => d end.
+(* run a function body: the value of `return`, or d when control falls off the end *)
+Definition run_body {env R} (s : stmt env R) (e : env) (d : R) : prog R := r <- s e ;; Ret (ret_or d r).
